@@ -59,6 +59,14 @@ CLAIMED = {
    text="The decision table of Registry.Filter for one loop iteration (closures inlined, induction over r.Names() with only the index carried) is compared with the documented selection predicate on lint kind × five filters × {absent, matching, not matching} × registration outcome (2 916 abstract cases): registered iff not excluded/included by source and name and matching the pattern, keyed by the lint's own Source and name, the very object returned by the kind's lookup registered with the kind's own method on the new registry, which always inherits the configuration; validation and registration errors are returned with a nil registry, pattern + name lists rejected, empty options return the receiver; tables of Empty (plus a field census so a new option cannot be forgotten), lintNamesToMap (trim, three lookups, unknown ⇒ error), sourceListToMap and AddProfile; MOD(Filter, receiver) = ∅ from the effect analysis. Regular-expression semantics and SourceList parsing are outside the claim.",
    note=TRUST+"Every registered name of every kind appears in r.Names() (C12's names-merge rule).",
    technique="decision-table extraction over go/ssa with bounded unrolling + induction side condition; effect (MOD) analysis", ref="§3 C08"),
+ "C07": dict(level="other",
+   text="Necessary structural conditions for independence of lints, all decided: MOD summaries show no lint method writes module-level state or the linted object (so co-selected lints cannot communicate) and every constructor allocates a fresh instance; the three execute* loops carry nothing but the index and store exactly one result per lint (nothing for unselected lints); the one-iteration decision table of Filter registers the very lint object returned by the lookup with its own kind and copies the configuration on every path. Value equality of results additionally rests on library determinism (C05 assumption).",
+   note=TRUST+"Aliasing approximated by SSA address roots (no pointer analysis); reflect/unsafe writes not modelled.",
+   technique="effect (MOD) analysis over go/ssa + VTA call graph; decision-table extraction for the result loops and Filter", ref="§3 C07"),
+ "C10": dict(level="other",
+   text="Interleavings are not explored; decided are the structural conditions under which they cannot matter: (1) MOD summaries: no lint method, Lint*Ex entry point or registry read API function (Names, Sources, ByName, BySource, Lints, WriteJSON, DefaultConfiguration, Filter, MaybeConfigure …) writes module-level state, the linted object, the registry/lookup it is called on or the shared configuration tree (sync-typed fields excepted; Filter writes only the registry it allocates); per-call lint instances; (2) every call site of the registration API, register* and SetConfiguration is in an init function, the registration API itself, NewRegistry/Filter on the not-yet-escaped registry, or the CLI's start-up; (3) every lock taken in lint/util/framework code is paired with an immediately deferred unlock and no lint method is invoked under a registry lock. The RLock-as-writer in register is reported as an observation: under (2) it cannot race with readers.",
+   note=TRUST+"Distinct parsed objects per goroutine (the property's own premise). Library internals assumed race-free for read-only use.",
+   technique="effect (MOD) analysis over go/ssa + VTA call graph; who-may-call census; lock-pairing rule on SSA", ref="§3 C10"),
 }
 
 NOT_YET = "check not built yet in this session (see DESIGN.md §3 for the planned static rule)"
